@@ -50,7 +50,7 @@ impl Prop for C15 {
     }
     fn runs(&self, tier: Tier) -> u64 {
         match tier {
-            Tier::Quick => 1500,
+            Tier::Quick => 2000,
             Tier::Thorough => 30000,
         }
     }
